@@ -831,6 +831,33 @@ def f_eq(I, a, t, c):
     return NotImplemented
 
 
+# ---- ranges / panics
+@model('std::ops::RangeInclusive::new')
+def m_ri_new(I, a, t, c):
+    return Agg('adt:std::ops::RangeInclusive', 0, [a[0], a[1], bv_bool(False)])
+
+
+@model('std::ops::RangeInclusive::contains')
+def m_ri_contains(I, a, t, c):
+    r = deref_all(I, a[0])
+    x = deref_all(I, a[1])
+    lo, hi = r.fields[0], r.fields[1]
+    if isinstance(x, float) or isinstance(lo, float):
+        return bv_bool(float(lo) <= float(x) <= float(hi))
+    return bv_bool(I.conc(lo) <= I.conc(x) <= I.conc(hi))
+
+
+@model('std::fmt::Arguments::from_str', 'std::fmt::Arguments::new', 'core::fmt::rt::Argument::new_display',
+       'core::fmt::rt::Argument::new_debug')
+def m_fmt_args(I, a, t, c):
+    return Opaque(('fmt', t.span))
+
+
+@model('core::panicking::panic_fmt', 'core::panicking::panic', 'std::rt::begin_panic')
+def m_panic(I, a, t, c):
+    raise Panic('panic', repr(a[:1]), t.span)
+
+
 # ---- Option
 @model('std::option::Option::<T>::is_some', 'std::option::Option::is_some')
 def m_is_some(I, a, t, c):
